@@ -893,3 +893,16 @@ for _u in _c02["UNITS"]:
         _u.template = "../C02/" + _u.template
         UNITS.append(_u)
 META["trusted_base"] = list(META.get("trusted_base", [])) + ["units c02.sts.* are the C02 units of the same name (specs/C02/sts.c) with their trusted base"]
+
+
+# ---- C12 unit reused (added after seeded change C01-9 was missed): the worker learns how a task phase ended from the result the coroutine
+# ---- trampoline binds; a task that ran to completion must be reported `terminated` (else it is re-queued and entered again, or parked for ever)
+_c12t = {"UNITS": [], "VX_NO_REUSE": True}
+if not globals().get("VX_NO_REUSE"):
+    exec(compile(open("/verif/specs/C12/spec.py").read(), "/verif/specs/C12/spec.py", "exec"), _c12t)
+for _u in _c12t["UNITS"]:
+    if _u.name == "recycle.trampoline":
+        _u.name = "c12." + _u.name
+        _u.template = "../C12/" + _u.template
+        UNITS.append(_u)
+META["trusted_base"] = list(META.get("trusted_base", [])) + ["unit c12.recycle.trampoline is the C12 unit of the same name (specs/C12/tramp.c) with its trusted base"]
